@@ -5,3 +5,9 @@ go 1.19
 replace github.com/SAP/go-dblib => /repo
 
 require github.com/SAP/go-dblib v0.0.0-00010101000000-000000000000
+
+require (
+	github.com/hashicorp/errwrap v1.0.0 // indirect
+	github.com/hashicorp/go-multierror v1.1.1 // indirect
+	github.com/hashicorp/go-version v1.7.0 // indirect
+)
